@@ -174,7 +174,10 @@ class TreeGen:
 
     def k_hh(self, r, c, d=0):
         v = self.array((r, 1))
-        return {"k": "hh", "v": enc(v), "beta": float(self.pick([2.0, 1.0, 0.5, -1.0]))}
+        beta = float(self.pick([2.0, 1.0, 0.5, -1.0]))
+        if np.iscomplexobj(v) and self.integer(1, 3) == 1:
+            beta = self.pick([[1.0, 1.0], [0.5, -0.5], [0.0, 2.0]])  # I - beta v v^H with a complex beta is not Hermitian
+        return {"k": "hh", "v": enc(v), "beta": beta}
 
     def k_kernel(self, r, c, d=0):
         dt = self.dtype()
@@ -590,7 +593,7 @@ class TraitGen(TreeGen):
         return self.op(n, n, d)
 
     # ---------------------------------------------------------------- annotated structured operators under combinators
-    def annotated(self, n, depth, wrappers=True):
+    def annotated(self, n, depth, wrappers=True, keep_shape=False):
         """A structured operator (Kronecker / BlockDiag / Tridiagonal / sums ... by construction Hermitian, positive definite
         or unitary) that carries a TRUE declaration - on its leaves and, possibly, on the composite itself - optionally
         placed under one combinator (transpose, adjoint, product, sum, Kronecker, block-diagonal, scalar multiple, a slice
@@ -601,7 +604,14 @@ class TraitGen(TreeGen):
             base = {"k": "ann", "a": {"herm": "SelfAdjoint", "pd": self.pick(["PSD", "SelfAdjoint"]), "unitary": "Unitary"}[trait], "ch": [base]}
         if not wrappers:
             return base
-        w = self.pick(["none", "none", "T", "H", "prod", "rprod", "sum", "kron", "bd", "scale", "slice"])
+        w = self.pick(["none", "T", "H", "sum", "scale", "cong", "cong"] if keep_shape else
+                      ["none", "none", "T", "H", "prod", "rprod", "sum", "kron", "bd", "scale", "slice", "cong", "cong"])
+        if w == "cong":
+            # congruence B K1 (K2) B^H with a lazy B (the same object on both ends) and one or two annotated cores
+            r = n if keep_shape else self.integer(1, 4)
+            B = {"k": "sum", "via": "op", "ch": [self.op(r, n, 0), self.op(r, n, 0)]}
+            core = [base] + ([self.annotated(n, 0, wrappers=False)] if self.boolean() else [])
+            return {"k": "cong", "form": self.pick(["H", "H", "T"]), "ch": [B] + core}
         if w == "none":
             return base
         if w in ("T", "H"):
